@@ -715,6 +715,23 @@ impl<'a> Gen<'a> {
                 return r;
             }
         }
+        if self.cfg.errors && self.rng.chance(1, 5) {
+            // a projection guarded by an expression that fails for some values of the variable
+            // it drops: several bindings, failing and passing, give the same head
+            let body_pred = *self.rng.pick(&["edge", "path"]);
+            let head_pred = *self.rng.pick(&["ok", "user"]);
+            let guard = if self.rng.chance(1, 2) {
+                Expr::bin(BinOp::Ge, Expr::bin(BinOp::Div, Expr::val(Term::Int(10)), Expr::var("d")), Expr::val(Term::Int(-100)))
+            } else {
+                Expr::bin(BinOp::Lt, Expr::bin(BinOp::Mul, Expr::var("d"), Expr::val(Term::Int(i64::MAX))), Expr::val(Term::Int(1)))
+            };
+            return Rule {
+                head: Pred { name: head_pred.to_string(), terms: vec![Term::Var("k".to_string())] },
+                body: vec![Pred { name: body_pred.to_string(), terms: vec![Term::Var("k".to_string()), Term::Var("d".to_string())] }],
+                exprs: vec![guard],
+                scopes: self.maybe_scopes(owner_is_authorizer),
+            };
+        }
         // (one rule in ten has no body atom: it fires once, whatever the facts)
         let (body, exprs, scopes, env) = self.body(owner_is_authorizer, true);
         // head: a predicate whose arguments can be filled from body variables or constants
